@@ -2,6 +2,7 @@ package props
 
 import (
 	"go/token"
+	"go/types"
 
 	"golang.org/x/tools/go/ssa"
 
@@ -12,7 +13,7 @@ func init() { register("C06", C06) }
 
 // C06 — no transaction applied twice; nonces advance strictly per epoch.
 func C06(p *engine.Prog, r *engine.Report) {
-	r.Explanation = "All-paths rules on blockchain.applyTxOnState and its feeders: (R1) every call that can mutate consensus state is reachable only through the pass edges of the exact epoch gate (tx.Epoch == global epoch) and the exact next-nonce gate (currentNonce+1 == tx.AccountNonce, currentNonce = phi(account nonce, 0 iff account epoch < global epoch)); (R2) every non-error return passes SetNonce(sender, tx.AccountNonce) and SetEpoch(sender, tx.Epoch) (or the equal-epoch edge); (R3) who-may-write Account.Nonce / Account.Epoch / Global.Epoch, derived from core/state's own field effects: nonce reset only via ClearAccount<-clearDustAccounts<-applyNewEpoch together with IncEpoch; (R4) processTxs/filterTxs complete a loop iteration / include a tx only through ValidateTx==nil and applyTxOnState==nil; ValidateTx rejects the zero sender. Uniqueness of a tx on a chain then follows (strictly increasing (epoch, nonce) per sender) by a pen-and-paper argument, not by the tool."
+	r.Explanation = "All-paths rules on blockchain.applyTxOnState and its feeders: (R1) every call that can mutate consensus state is reachable only through the pass edges of the exact epoch gate (tx.Epoch == global epoch) and the exact next-nonce gate (currentNonce+1 == tx.AccountNonce, currentNonce = phi(account nonce, 0 iff account epoch < global epoch)); (R2) every non-error return passes SetNonce(sender, tx.AccountNonce) and SetEpoch(sender, tx.Epoch) (or the equal-epoch edge); (R3) who-may-write Account.Nonce / Account.Epoch / Global.Epoch, derived from core/state's own field effects: nonce reset only via ClearAccount<-clearDustAccounts<-applyNewEpoch together with IncEpoch; (R5) both signing digests selectable by types.Sender read AccountNonce and Epoch; (R4) processTxs/filterTxs complete a loop iteration / include a tx only through ValidateTx==nil and applyTxOnState==nil; ValidateTx rejects the zero sender. Uniqueness of a tx on a chain then follows (strictly increasing (epoch, nonce) per sender) by a pen-and-paper argument, not by the tool."
 	r.Assumptions = []string{"integer comparison/addition semantics of Go", "signature recovery (types.Sender) is injective on distinct signers (cryptographic)", "uint32 nonce overflow not considered"}
 	sm := getStateModel(p)
 	mm := mayMutate(p)
@@ -391,6 +392,29 @@ func C06(p *engine.Prog, r *engine.Report) {
 		r.Check(okAll, "C06-R4", "ValidateTx|zero sender rejected", p.Pos(vt.Pos()), "every non-error return is behind sender != Address{}", "ValidateTx can succeed for a transaction whose signer could not be recovered")
 	}
 	r.Floor("C06-R4", 7, "2x(guarded apply + same tx) + loop/append + zero sender")
+
+	// ---- R5: both digests that types.Sender can use bind nonce and epoch to the signer
+	pkT := p.ByPath[engine.RepoMod+"/blockchain/types"]
+	if pkT != nil {
+		if txT, ok := pkT.Types.Scope().Lookup("Transaction").Type().(*types.Named); ok {
+			ms := methodsOf(p, txT)
+			sigReads := map[fkey]bool{}
+			if f := ms["ToSignatureBytes"]; f != nil {
+				sigReads = fieldReads(closureOf([]*ssa.Function{f}))
+			}
+			sh, _ := p.Func("blockchain/types", "signatureHash")
+			rlpReads := map[fkey]bool{}
+			if sh != nil {
+				rlpReads = fieldReads([]*ssa.Function{sh})
+			}
+			for _, fld := range []string{"AccountNonce", "Epoch"} {
+				k := fkey{txT, fld}
+				r.Check(sigReads[k], "C06-R5", "Transaction.ToSignatureBytes|binds "+fld, "blockchain/types", "read by the signed encoding", fld+" is not covered by the signature: an included tx can be re-injected with another "+fld)
+				r.Check(rlpReads[k], "C06-R5", "signatureHash (legacy RLP digest)|binds "+fld, "blockchain/types", "listed in the legacy digest", fld+" is not covered by the legacy RLP digest: an included UseRlp tx can be re-injected with another "+fld)
+			}
+		}
+	}
+	r.Floor("C06-R5", 4, "2 digests x (nonce, epoch)")
 }
 
 func okNonceSource(v ssa.Value, isAccNonce, isAccEpoch, isGlobalEpoch func(ssa.Value) bool) bool {
